@@ -247,6 +247,15 @@ class Gen:
             self.retry[str(c)] = self.retry["-"]
         if r.chance(1, 5):
             self.abandon_prologue()
+        elif r.chance(1, 8):
+            # a request parked while no pipe is connected for longer than a resend tick, then a peer arrives and takes it
+            # (seeded C12-7A: the retry timer stopped meanwhile and the request was never retransmitted)
+            self.emit_send(self.who(), self.aio(), "inf")
+            for _ in range(r.choice([1, 2, 3])):
+                self.advance()
+            self.ops.append("pipe_add 0031")
+            self.npipes += 1
+            self.busy.clear()
         for _ in range(r.choice([0, 1, 1, 2])):
             if self.npipes < 3:
                 self.ops.append("pipe_add 0031")
